@@ -456,9 +456,11 @@ func accountRun(st *Stats, w *Workload, rep *RunReport, seen map[uint64]bool) {
 	st.Ops["error"] += rep.ErrOps
 	st.Ops["panic"] += rep.PanicOps
 	st.RaceReports += rep.RaceDelta
-	st.Probes["observer_turns"] += uint64(rep.ObsTurns)
-	st.Probes["observer_turns_while_search_in_flight"] += uint64(rep.ObsInFlight)
-	st.Probes["doc_hash_checks"] += rep.HashChecks
+	if w.Prop == "C06" {
+		st.Probes["observer_turns"] += uint64(rep.ObsTurns)
+		st.Probes["observer_turns_while_search_in_flight"] += uint64(rep.ObsInFlight)
+		st.Probes["doc_hash_checks"] += rep.HashChecks
+	}
 	// longest stretch one client was kept off the CPU while live (stalled node)
 	parked := map[int]int32{}
 	var maxStall uint64
